@@ -29,19 +29,22 @@ Inductive point :=
   | PStatsAsync  (* the same, written by the asynchronous source closer: the tunnel summary may be
                     printed before that goroutine has stored the string, so "empty" is allowed too *)
   | PLib         (* registration_ingest.go: wrapped with %w after the lib's generalizeErr *)
-  | PLibPlain.   (* registration_ingest.go: logger.Errorln(msg, generalizeErr(err)) with the lib's copy *)
+  | PLibPlain    (* registration_ingest.go: logger.Errorln(msg, generalizeErr(err)) with the lib's copy *)
+  | PRaw.        (* the error is printed as its producer returned it (a site with an AErr argument) *)
 
 Definition expected (p : point) (e : eshape) : N :=
   match p with
   | PDiscard => let c := code (generalize Conns (Some e)) in if c =? 6 then 0 else c
   | PReadLoop | PPlain => code (generalize Conns (Some e))
   | PStats | PStatsAsync | PLib | PLibPlain => code (generalize Proxies (Some e))
+  | PRaw => code (Some e)
   end.
 
 Definition expected_leak (p : point) (e : eshape) : bool :=
   match p with
   | PDiscard | PReadLoop | PPlain => match generalize Conns (Some e) with Some g => mentions g | None => false end
   | PStats | PStatsAsync | PLib | PLibPlain => match generalize Proxies (Some e) with Some g => mentions g | None => false end
+  | PRaw => mentions e
   end.
 
 (* case: point, injected shape, observed code, observed "address found in the captured text" *)
@@ -55,5 +58,12 @@ Definition chk_err (c : point * jshape * N * bool) : bool :=
 Definition dec_env (n : N) : envval := match n with 0 => EVUnset | 1 => EVTrue | 2 => EVFalse | _ => EVOther end.
 Definition chk_gate (c : N * bool) : bool := let '(v, present) := c in Bool.eqb (gate (dec_env v)) present.
 
-Inductive lcase := LErr (c : point * jshape * N * bool) | LGate (c : N * bool).
-Definition chk (c : lcase) : bool := match c with LErr x => chk_err x | LGate x => chk_gate x end.
+(* producer case (real sockets): the error value the REAL call returned in the provoked failure,
+   decomposed by the driver into a shape, must be one the model's producer can return; and what the
+   site then printed must be the model's prediction for that value at that kind of site *)
+Definition chk_prod (c : producer * point * jshape * N * bool) : bool :=
+  let '(p, pt, j, oc, ol) := c in
+  can_produce p (dec j) && (expected pt (dec j) =? oc) && Bool.eqb (expected_leak pt (dec j)) ol.
+
+Inductive lcase := LErr (c : point * jshape * N * bool) | LGate (c : N * bool) | LProd (c : producer * point * jshape * N * bool).
+Definition chk (c : lcase) : bool := match c with LErr x => chk_err x | LGate x => chk_gate x | LProd x => chk_prod x end.
